@@ -89,6 +89,45 @@ def gen_cases(rng, tier):
         h += ['d31', 't2', 'u31', 't%d' % gap, 'q', 'd32', 't2', 'u32', 't%d' % rng.choice([5, T + 50]), 'q', 'd33', 't2', 'u33', 't%d' % (T + 60), 'q']
         c = {'id': 'c07-seqto-%d' % i, 'cfg': cfg, 'hist': h, 'sub': 'ksim', 'tags': {'kind': 'sequence-timeout', 'always_on': always, 'gap': gap - T}}
         cases.append(c); extra_pairs.append(c)
+    # mechanisms with their own countdown that must keep the loop awake: a one-shot key held alone past its timeout, the zippychord
+    # re-enable time after a non-chord key, the chords-v2 min-idle window, the key-timing clock of switch (largest threshold)
+    for i in range(30 if tier == 'quick' else 600):
+        T = rng.choice([30, 100])
+        variant = rng.choice(['one-shot', 'one-shot-press', 'one-shot-release', 'one-shot-press-pcancel', 'one-shot-release-pcancel'])
+        cfg = '(defsrc a s d)\n(deflayer l0 (%s %d lsft) b c)' % (variant, T)
+        h = ['t3', 'd30', 't%d' % rng.choice([5, T - 1, T + 1, T + 40, 3 * T]), 'q', 'u30', 't%d' % rng.choice([1, T // 2, T - 1, T + 1, T + 30]), 'q',
+             'd31', 't5', 'u31', 't%d' % rng.choice([5, T + 20]), 'q', 'd32', 't3', 'u32', 't%d' % (T + 50), 'q']
+        c = {'id': 'c07-osh-%d' % i, 'cfg': cfg, 'hist': h, 'sub': 'ksim', 'tags': {'kind': 'one-shot-held'}}
+        cases.append(c); extra_pairs.append(c)
+    import checks.c20 as c20
+    import checks.c09 as c09
+    for i in range(24 if tier == 'quick' else 500):
+        z = c20.make_case(rng, i, tier)
+        wait = int(re.search(r'idle-reactivate-time (\d+)', z['cfg']).group(1))
+        # a non-chord key, a pause around the re-enable time, then the scenarios
+        # zippychord forgets a prioritized follow-up dictionary after 10000 *ticks* without a state change: a count of ticks, not of
+        # time, so a loop that sleeps keeps it (known finding zippy-reset-counts-ticks). The quiet stretches of more than 10 s
+        # that C20's scenarios use to get out of that context are shortened here, except in a few tagged cases.
+        keep_long = i % 8 == 0
+        body = [t for t in z['hist'] if t != 'q']
+        has_long = 't10100' in body
+        if not keep_long:
+            body = ['t300' if t == 't10100' else t for t in body]
+        h = ['t5', 'd45', 't3', 'u45', 't%d' % rng.choice([wait - 1, wait, wait + 1, wait + 200, 5]), 'q'] + body + ['q']
+        c = {'id': 'c07-zip-%d' % i, 'cfg': z['cfg'], 'files': z['files'], 'hist': h, 'sub': 'ksim', 'tags': {'kind': 'zippy-reenable'}}
+        if keep_long and has_long:
+            c['pair_tag'] = 'zippy-reset-counts-ticks'
+        cases.append(c); extra_pairs.append(c)
+    for i in range(30 if tier == 'quick' else 600):
+        v = c09.v2_random_case(rng, i)
+        mi = re.search(r'chords-v2-min-idle (\d+)', v['cfg'])
+        mi = int(mi.group(1)) if mi else 5
+        body = [t for t in v['hist'] if t != 'q']
+        # a key that is no chord participant first (it leaves the chord queue without activating anything), a pause around min-idle
+        h = ['t5', 'd36', 't2', 'u36', 't%d' % rng.choice([mi - 1, mi, mi + 1, mi + 3, mi + 200]), 'q'] + body + ['q']
+        c = {'id': 'c07-chv2-%d' % i, 'cfg': v['cfg'], 'hist': h, 'sub': 'ksim', 'tags': {'kind': 'chords-v2-min-idle'}}
+        cases.append(c); extra_pairs.append(c)
+    extra_pairs += [c for c in cases if (c.get('tags') or {}).get('kind') == 'key-timing']
     # the processing loop itself: before every millisecond the loop asks can_block_update_idle_waiting; a run that honours the
     # answer (B1: blocked milliseconds run no tick) must be indistinguishable from one that ticks regardless (B0)
     import checks.c08 as c08
@@ -188,8 +227,8 @@ def post(all_results, run_impl, rng, tier, stats):
             k = 0
             while k < min(len(a), len(b)) and a[k] == b[k]:
                 k += 1
-            out.append((c, it, None, 'blocking whenever can_block_update_idle_waiting allows it changes the behaviour: blocking run [%s], always-ticking run [%s]'
-                        % (a[k] if k < len(a) else '<end>', b[k] if k < len(b) else '<end>')))
+            out.append((c, it, None, 'blocking whenever can_block_update_idle_waiting allows it changes the behaviour: blocking run [%s], always-ticking run [%s]%s'
+                        % (a[k] if k < len(a) else '<end>', b[k] if k < len(b) else '<end>', (' [%s]' % c['pair_tag']) if c.get('pair_tag') else '')))
     stats['loop_pairs'] = npairs
     if not variants:
         return out
